@@ -46,6 +46,9 @@ type c01HTTPSpec struct {
 	Fault   string        `json:"fault"` // missing (stream cut, re-connecting answered 404) | malformed (undecodable message on the stream) | none
 	FaultAt int           `json:"fault_ms"`
 	Post    int           `json:"post_calls"`
+	// Nested (SSE responses only): every handler first asks the client for its roots, twice, on its request's stream;
+	// the ids of those requests are the server's own and coincide with ids of the client's calls
+	Nested bool `json:"nested,omitempty"`
 }
 
 func genC01HTTP(r *vh.Rand) c01HTTPSpec {
@@ -64,6 +67,7 @@ func genC01HTTP(r *vh.Rand) c01HTTPSpec {
 		}
 		s.Calls = append(s.Calls, cs)
 	}
+	s.Nested = !s.JSON && r.Chance(1, 3)
 	return s
 }
 
@@ -76,6 +80,17 @@ func runC01HTTP(c *vh.Case, spec c01HTTPSpec) {
 	}
 	mcp.AddTool(server, &mcp.Tool{Name: "work"}, func(ctx context.Context, req *mcp.CallToolRequest, a args) (*mcp.CallToolResult, any, error) {
 		log.Add("handler-start", "n", a.Nonce)
+		if spec.Nested {
+			for k := 0; k < 2; k++ {
+				// (bounded: a client that has gone away without a word answers nothing, and nobody cancels this
+				// request; "provided handlers return" is the handler's business)
+				nctx, ncancel := context.WithTimeout(ctx, 30*time.Second)
+				if _, err := req.Session.ListRoots(nctx, nil); err != nil && ctx.Err() == nil {
+					log.Add("nested-call-failed", "n", a.Nonce, "err", err.Error())
+				}
+				ncancel()
+			}
+		}
 		select {
 		case <-time.After(ms(a.Work)):
 		case <-ctx.Done():
@@ -127,6 +142,7 @@ func runC01HTTP(c *vh.Case, spec c01HTTPSpec) {
 		return &http.Response{StatusCode: 200, Status: "200 OK", Header: http.Header{"Content-Type": {"text/event-stream"}}, Body: pr, Request: req}, nil
 	}
 	client := mcp.NewClient(&mcp.Implementation{Name: "c", Version: "1"}, nil)
+	client.AddRoots(&mcp.Root{URI: "file:///r", Name: "r"})
 	ctx := context.Background()
 	cs, err := client.Connect(ctx, &mcp.StreamableClientTransport{Endpoint: "http://example.test/mcp", HTTPClient: ip.Client()}, &mcp.ClientSessionOptions{ProtocolVersion: spec.Version})
 	if err != nil {
